@@ -24,10 +24,13 @@ K = (
 )
 
 
-def c15_shape(shape: int, n1: int, n2: int, a0: int, a1: int, b0: int, b1: int) -> bool:
+SEG = [(32, 126), (9, 10), (8232, 8233)]  # printable ASCII / TAB,LF / LINE+PARAGRAPH SEPARATOR
+
+
+def c15_shape(shape: int, rp: int, n1: int, n2: int, a0: int, a1: int, b0: int, b1: int) -> bool:
     """
-    vpre: (a0 == 9 or a0 == 10 or 32 <= a0 <= 126 or a0 == 8232) and (a1 == 9 or a1 == 10 or 32 <= a1 <= 126 or a1 == 8232)
-    vpre: (b0 == 9 or b0 == 10 or 32 <= b0 <= 126 or b0 == 8232) and (b1 == 9 or b1 == 10 or 32 <= b1 <= 126 or b1 == 8232)
+    vpre: SEG[rp][0] <= a0 <= SEG[rp][1] and 32 <= a1 <= 126
+    vpre: 32 <= b0 <= 126 and 32 <= b1 <= 126
     vpost: _ == True
     """
     t1 = S(*((a0, a1)[:n1])) if n1 else "x"
@@ -44,11 +47,12 @@ specialise(
     "C15",
     "a.shapes",
     c15_shape,
-    {"shape": list(range(1, SH.N_SHAPES)), "n1": [1], "n2": [0]},
+    {"shape": list(range(1, SH.N_SHAPES)), "rp": [0, 1, 2], "n1": [1], "n2": [0]},
+    reach_if=lambda fx: fx["rp"] == 0,
     timeout=300,
     kernel=K,
     shims=("S2", "S5"),
-    symbolic="first text/attribute segment = 1 symbolic character over printable ASCII + TAB + LF + U+2028 (second segment fixed)",
+    symbolic="first text/attribute segment = 1 symbolic character over a contiguous range fixed per instance (printable ASCII / TAB-LF / U+2028-2029), second segment fixed",
     bounds="shape fixed per instance (text-only, element-only, text+output+text, output first/last, attributes, nested mixed, html skeleton, two outputs)",
     weight=60,
 )
@@ -56,7 +60,8 @@ specialise(
     "C15",
     "a.shapes",
     c15_shape,
-    {"shape": list(range(1, SH.N_SHAPES)), "n1": [1, 2], "n2": [1]},
+    {"shape": list(range(1, SH.N_SHAPES)), "rp": [0, 1], "n1": [1, 2], "n2": [1]},
+    reach_if=lambda fx: fx["rp"] == 0 and fx["n1"] == 1,
     tiers=("thorough",),
     timeout=1800,
     kernel=K,
@@ -64,4 +69,53 @@ specialise(
     symbolic="two text/attribute segments of up to 2 symbolic characters (printable ASCII + TAB + LF + U+2028)",
     bounds="shape and segment lengths fixed per instance",
     weight=500,
+)
+
+
+
+# ---- b: whole form, the public pretty/compact writers ----------------------------------------
+from harness.common import build_survey  # noqa: E402
+
+shims.standard()
+FORM_SEG = [(32, 126), (8232, 8233), (9, 10)]
+
+
+def c15_form(rp: int, where: int, c0: int) -> bool:
+    """
+    vpre: FORM_SEG[rp][0] <= c0 <= FORM_SEG[rp][1] and c0 != 36
+    vpost: _ == True
+    """
+    t = "x" + S(c0) + "\ny z"  # a multi-line cell: the character before the line break is symbolic
+    q = {"type": "text", "name": "q1", "label": "L"}
+    wb = {"survey": [q], "choices": [{"list_name": "l1", "name": "a", "label": "A"}]}
+    if where == 0:
+        q["label"] = t
+    elif where == 1:
+        q["hint"] = t
+    elif where == 2:
+        q["label::L1"] = t
+    else:
+        wb["survey"].append({"type": "select_one l1", "name": "s", "label": "S"})
+        wb["choices"][0]["label"] = t
+    survey, _w, _js = build_survey(wb)
+    compact = survey._to_ugly_xml()
+    survey2, _w2, _js2 = build_survey(wb)
+    pretty = survey2._to_pretty_xml()
+    tc = tree(xmlmodel.parse(compact).documentElement)
+    tp = tree(xmlmodel.parse(pretty).documentElement)
+    return SH.norm(tc) == SH.norm(tp)
+
+
+specialise(
+    "C15",
+    "b.form",
+    c15_form,
+    {"rp": [0, 1], "where": [0, 1, 2, 3]},
+    reach_if=lambda fx: fx["rp"] == 0 and fx["where"] == 0,
+    timeout=400,
+    kernel=K + ("pyxform.survey:Survey._to_ugly_xml", "pyxform.survey:Survey._to_pretty_xml", "pyxform.survey:Survey.xml"),
+    shims=("S1", "S2", "S3", "S4", "S5"),
+    symbolic="the character before an embedded line break in a multi-line cell (printable ASCII incl. space / U+2028-2029)",
+    bounds="channel fixed per instance: label, hint, itext label, choice label; whole document compared through the public _to_ugly_xml/_to_pretty_xml writers",
+    weight=80,
 )
